@@ -119,29 +119,37 @@ impl Monitor for PdMon {
             let ev_bits = time_to_bits(m.event_time) as i128;
             let mut ok = false;
             let mut contaminated = false;
+            let mut clean_match = false;
             for (seq, t1) in &st.reqs {
                 let Some(t1) = t1 else { continue };
                 for (rseq, who, two, t2, t4c) in &st.resps {
                     if rseq != seq {
                         continue;
                     }
+                    // did anybody else answer THIS request?
                     let several = st.resps.iter().filter(|r| r.0 == *seq).any(|r| r.1 != *who) || st.fups.iter().filter(|f| f.0 == *seq).any(|f| f.1 != *who);
-                    if several {
-                        contaminated = true;
-                    }
+                    let mut matches = false;
                     if *two {
                         for (fseq, fwho, t3c) in &st.fups {
                             if fseq == seq && fwho == who {
                                 let want = ((t4c - t1) - (t3c - t2)) / 2;
                                 if (got - want).abs() <= 1 && ev_bits == *t4c {
-                                    ok = true;
+                                    matches = true;
                                 }
                             }
                         }
                     } else {
                         let want = (t4c - t1) / 2;
                         if (got - want).abs() <= 1 && ev_bits == *t4c {
-                            ok = true;
+                            matches = true;
+                        }
+                    }
+                    if matches {
+                        ok = true;
+                        if several {
+                            contaminated = true;
+                        } else {
+                            clean_match = true;
                         }
                     }
                 }
@@ -156,7 +164,7 @@ impl Monitor for PdMon {
                     replay: json!(null),
                 });
             }
-            if ok && contaminated {
+            if ok && contaminated && !clean_match {
                 local.push(Violation {
                     signature: "measurement-from-request-answered-by-several-responders".into(),
                     message: format!("a link delay was computed (and a faulty port recovers) from a request that several responders answered: responses {:?} follow-ups {:?}", st.resps, st.fups),
